@@ -1,10 +1,11 @@
 //! C19 — dynafed parameter roots survive compaction and match the commitment layout.
 use elements::dynafed::{self, FullParams, Params};
-use elements::{BlockExtData, Script};
+use elements::hashes::Hash as _;
+use elements::{BlockExtData, BlockHash, BlockHeader, Script, TxMerkleNode};
 use serde_json::json;
 
 use crate::engine::*;
-use crate::gen;
+use crate::gen::{self, ext_g6};
 use crate::refimpl::{enc, sha256 as r};
 use crate::{ensure, ensure_eq};
 
@@ -38,7 +39,7 @@ fn lib_root(p: &Params) -> Result<[u8; 32], Failure> {
 }
 
 fn full_params(t: &mut Tape, ctx: &mut Ctx) -> R {
-    let f = gen::gen_full_params(t);
+    let f = ext_g6::gen_full_params_big(t);
     let want = ref_root(&Params::Full(f.clone()));
     let a = guard::guard("FullParams::calculate_root", 0, || f.calculate_root().to_byte_array())?;
     let b = lib_root(&Params::Full(f.clone()))?;
@@ -59,10 +60,17 @@ fn full_params(t: &mut Tape, ctx: &mut Ctx) -> R {
         }
         other => return Err(Failure::new(format!("into_compact did not give a compact form: {:?}", other))),
     }
-    // idempotent
+    // compacting the compact form again: the statement only promises that the root survives
     let again = guard::guard("Params::into_compact", 0, || compact.clone().into_compact())?;
-    ensure!(again.as_ref() == Some(&compact), "compaction is not idempotent");
-    ensure!(Params::Full(f.clone()).elided_root().is_none(), "full params must not report an elided root");
+    match &again {
+        Some(c2) => {
+            ensure_eq!(hex(&lib_root(c2)?), hex(&want), "compacting the compact form changed its root");
+            ctx.class(if c2 == &compact { "recompact:identical" } else { "recompact:same-root-other-form" });
+        }
+        None => ctx.class("recompact:none"),
+    }
+    // (what the accessor reports for the *full* form is not part of the statement: histogram only)
+    ctx.class(if Params::Full(f.clone()).elided_root().is_none() { "full.elided_root():none" } else { "full.elided_root():some" });
     // sensitivity: changing any single parameter changes the root
     for k in 0..5 {
         let mut g = f.clone();
@@ -115,8 +123,19 @@ fn full_params(t: &mut Tape, ctx: &mut Ctx) -> R {
         ensure!(r2 != a, "root unchanged by a change of {}", label);
         ctx.class(&format!("sensitivity:{}", label));
     }
-    let nt = !f.extension_space.is_empty() || f.signblockscript.is_empty() || f.fedpegscript.is_empty() || f.fedpeg_program.is_empty();
+    let max_entry = f.extension_space.iter().map(|e| e.len()).max();
+    let big = f.signblockscript.len() >= 0xfd || f.fedpeg_program.len() >= 0xfd || f.fedpegscript.len() >= 0xfd || max_entry.map_or(false, |m| m >= 0xfd);
+    let nt = big || !f.extension_space.is_empty() || f.signblockscript.is_empty() || f.fedpegscript.is_empty() || f.fedpeg_program.is_empty();
     ctx.class(if f.extension_space.is_empty() { "ext:empty" } else { "ext:non-empty" });
+    ctx.class(&format!("len:signblockscript:{}", ext_g6::len_class(f.signblockscript.len())));
+    ctx.class(&format!("len:fedpeg_program:{}", ext_g6::len_class(f.fedpeg_program.len())));
+    ctx.class(&format!("len:fedpegscript:{}", ext_g6::len_class(f.fedpegscript.len())));
+    if let Some(m) = max_entry {
+        ctx.class(&format!("len:longest-ext-entry:{}", ext_g6::len_class(m)));
+    }
+    if f.extension_space.len() >= 0xfd {
+        ctx.class("ext:count>=0xfd");
+    }
     if nt {
         ctx.nontrivial(&hex(&a));
     }
@@ -126,8 +145,67 @@ fn full_params(t: &mut Tape, ctx: &mut Ctx) -> R {
     Ok(())
 }
 
+/// harness-built compact form of `p` (reference extra root as the elided root)
+fn ref_compact(p: &Params) -> Params {
+    match p {
+        Params::Full(f) => Params::Compact {
+            signblockscript: f.signblockscript.clone(),
+            signblock_witness_limit: f.signblock_witness_limit,
+            elided_root: dynafed::ElidedRoot::from_byte_array(ref_extra_root(f)),
+        },
+        other => other.clone(),
+    }
+}
+
+/// a header whose two parameter sets are independent (10/16) or related the way they are on chain
+/// between transitions: identical, one the compact form of the other, or a compact form whose
+/// elided root equals its own signblock commitment
+fn gen_header_rel(t: &mut Tape) -> (BlockHeader, &'static str) {
+    let (ext, rel) = if t.chance(64) {
+        (BlockExtData::Proof { challenge: gen::gen_script(t, false), solution: gen::gen_script(t, false) }, "proof")
+    } else {
+        let current = ext_g6::gen_params_big(t);
+        let (current, proposed, rel) = match t.below(16) {
+            0..=9 => {
+                let p = ext_g6::gen_params_big(t);
+                (current, p, "independent")
+            }
+            10 | 11 => (current.clone(), current, "proposed==current"),
+            12 | 13 => {
+                let c = ref_compact(&current);
+                (current, c, "proposed==compact(current)")
+            }
+            14 => {
+                let c = ref_compact(&current);
+                (c, current, "current==compact(proposed)")
+            }
+            _ => {
+                let (s, l) = match &current {
+                    Params::Null => (gen::gen_script(t, false), t.edgy_u32()),
+                    Params::Compact { signblockscript, signblock_witness_limit, .. } => (signblockscript.clone(), *signblock_witness_limit),
+                    Params::Full(f) => (f.signblockscript.clone(), f.signblock_witness_limit),
+                };
+                let e = dynafed::ElidedRoot::from_byte_array(ref_compact_root(&s, l));
+                (current, Params::Compact { signblockscript: s, signblock_witness_limit: l, elided_root: e }, "elided==own-signblock-commitment")
+            }
+        };
+        (BlockExtData::Dynafed { current, proposed, signblock_witness: if t.bool() { gen::gen_stack(t, false) } else { vec![] } }, rel)
+    };
+    (
+        BlockHeader {
+            version: t.edgy_u32() & 0x7fff_ffff,
+            prev_blockhash: BlockHash::from_byte_array(t.arr32()),
+            merkle_root: TxMerkleNode::from_byte_array(t.arr32()),
+            time: t.edgy_u32(),
+            height: t.edgy_u32(),
+            ext,
+        },
+        rel,
+    )
+}
+
 fn any_params_and_headers(t: &mut Tape, ctx: &mut Ctx) -> R {
-    let h = gen::gen_header(t);
+    let (h, rel) = gen_header_rel(t);
     let got = guard::guard("calculate_dynafed_params_root", 0, || h.calculate_dynafed_params_root().map(|r| r.to_byte_array()))?;
     ctx.eval();
     match &h.ext {
@@ -140,58 +218,77 @@ fn any_params_and_headers(t: &mut Tape, ctx: &mut Ctx) -> R {
                 let lr = lib_root(p)?;
                 ctx.eval();
                 ensure_eq!(hex(&lr), hex(&ref_root(p)), "Params::calculate_root differs from reference for {:?}", p);
+                let c = guard::guard("Params::into_compact", 0, || p.clone().into_compact())?;
                 match p {
                     Params::Null => {
                         ensure!(lr == [0u8; 32], "null params must have the all-zero root");
-                        ensure!(p.clone().into_compact().is_none(), "null params compact to something");
-                    }
-                    Params::Compact { .. } => {
-                        ensure!(p.clone().into_compact().as_ref() == Some(p), "compacting a compact form changed it");
-                    }
-                    Params::Full(_) => {
-                        let c = p.clone().into_compact();
+                        // whatever null parameters compact to must still have the all-zero root
                         match c {
-                            Some(c) => ensure_eq!(hex(&lib_root(&c)?), hex(&lr), "compaction changed the root"),
-                            None => return Err(Failure::new("full params compact to None")),
+                            None => ctx.class("null.into_compact():none"),
+                            Some(c) => {
+                                ensure_eq!(hex(&lib_root(&c)?), hex(&[0u8; 32]), "the compact form of null params does not have the all-zero root");
+                                ctx.class("null.into_compact():some");
+                            }
                         }
                     }
+                    Params::Compact { elided_root, .. } => {
+                        match c {
+                            Some(c) => ensure_eq!(hex(&lib_root(&c)?), hex(&lr), "compacting a compact form changed its root"),
+                            None => ctx.class("compact.into_compact():none"),
+                        }
+                        let e = elided_root.to_byte_array();
+                        ctx.class(if e == [0u8; 32] { "elided:all-zero" } else if e == [0xff; 32] { "elided:all-ones" } else { "elided:other" });
+                    }
+                    Params::Full(_) => match c {
+                        Some(c) => ensure_eq!(hex(&lib_root(&c)?), hex(&lr), "compaction changed the root"),
+                        None => return Err(Failure::new("full params compact to None")),
+                    },
                 }
             }
-            let want = r::fast_merkle_root(&[ref_root(current), ref_root(proposed)]);
-            ensure_eq!(got.map(|g| hex(&g)), Some(hex(&want)), "header dynafed root is not fm(root(current), root(proposed))");
+            let (rc, rp) = (ref_root(current), ref_root(proposed));
+            let want = r::fast_merkle_root(&[rc, rp]);
+            ensure_eq!(got.map(|g| hex(&g)), Some(hex(&want)), "header dynafed root is not fm(root(current), root(proposed)) [{}]", rel);
             let kind = |p: &Params| match p {
                 Params::Null => "null",
                 Params::Compact { .. } => "compact",
                 Params::Full(_) => "full",
             };
             ctx.class(&format!("header:dynafed:{}+{}", kind(current), kind(proposed)));
-            if !current.is_null() && !proposed.is_null() && current != proposed {
+            ctx.class(&format!("header:relation:{}", rel));
+            if !current.is_null() && rc == rp {
+                ctx.class("header:equal-non-null-roots");
+            }
+            if !current.is_null() && !proposed.is_null() && (current != proposed || rel != "independent") {
                 ctx.nontrivial(&hex(&want));
             }
             if ctx.wants_sample("header") {
-                ctx.sample("header", || json!({"current": kind(current), "proposed": kind(proposed), "root": hex(&want)}));
+                ctx.sample("header", || json!({"current": kind(current), "proposed": kind(proposed), "relation": rel, "root": hex(&want)}));
             }
         }
     }
-    let _ = dynafed::Params::Null;
     Ok(())
 }
 
 pub fn property() -> Property {
     Property {
         id: "C19",
-        rule: "full_params: tape-generated full parameter sets (scripts / fedpeg data 0..300 bytes, any witness limit, \
-               extension space 0..8 entries of 0..70 bytes); oracle: FullParams::calculate_root == Params::Full root == \
-               root of the compact form == harness two-level fast-merkle commitment over sha256d(serialization) leaves; \
-               elided root == reference extra root; compaction keeps signblock fields, is idempotent; each of 5 single \
-               parameter changes changes the root. headers: dynafed headers over all Null/Compact(arbitrary elided \
-               root)/Full combinations and proof headers; header root == fm(root(current), root(proposed)), None for proof. \
-               Non-trivial: non-empty extension space or an empty script field; header with two different non-null \
-               parameter sets; distinct by root.",
+        rule: "full_params: tape-generated full parameter sets; signblockscript, fedpeg program, fedpegscript and (for <= 8 entries) \
+               extension entries have lengths 0, 1..80, 0xfc/0xfd/0xfe/0xff/0x100, 253..1100 and rarely 0xffff/0x10000/0x10001 \
+               (classes len:*), any witness limit, extension space 0..8 entries or 0xfc/0xfd/0xfe/300 tiny entries; oracle: \
+               FullParams::calculate_root == Params::Full root == root of the compact form == harness two-level fast-merkle \
+               commitment over sha256d(serialization) leaves; elided root carried by the compact form == reference extra root; \
+               compaction keeps the signblock fields; compacting again keeps the root; each of 5 single parameter changes \
+               changes the root (backed by the reference). headers: dynafed headers over all Null/Compact(elided root \
+               all-zero / all-ones / random)/Full combinations, parameter pairs independent or related (identical, one the \
+               harness-built compact form of the other, elided root equal to the form's own signblock commitment), and proof \
+               headers; every Params root == reference, null == all-zero root (also after into_compact, if that yields \
+               anything), into_compact keeps the root; header root == fm(root(current), root(proposed)), None for proof. \
+               Non-trivial: a field >= 0xfd bytes, non-empty extension space or an empty script field; header with two non-null \
+               parameter sets that differ or are related by construction; distinct by root.",
         assumptions: &["harness SHA-256 / fast merkle root as in C18"],
         subs: vec![
-            Sub { name: "full_params", kind: Kind::Tape { max_len: 2500, quick: 480_000, thorough: 4_000_000, f: full_params } },
-            Sub { name: "headers", kind: Kind::Tape { max_len: 2500, quick: 480_000, thorough: 4_000_000, f: any_params_and_headers } },
+            Sub { name: "full_params", kind: Kind::Tape { max_len: 2500, quick: 400_000, thorough: 4_000_000, f: full_params } },
+            Sub { name: "headers", kind: Kind::Tape { max_len: 2500, quick: 400_000, thorough: 4_000_000, f: any_params_and_headers } },
         ],
         known: vec![],
     }
